@@ -11,6 +11,7 @@ import (
 	"github.com/trustbloc/sidetree-go/pkg/vdr/sidetreelongform/dochandler"
 	"github.com/trustbloc/sidetree-go/pkg/versions/1_0/doctransformer/didtransformer"
 	"github.com/trustbloc/sidetree-go/pkg/versions/1_0/doctransformer/doctransformer"
+	"github.com/trustbloc/sidetree-go/pkg/versions/1_0/operationparser"
 	"github.com/trustbloc/sidetree-go/pkg/versions/1_0/operationparser/patchvalidator"
 
 	"verif/harness/internal/proto"
@@ -203,11 +204,33 @@ func resolveKind(c *proto.Case) interface{} {
 	if err != nil {
 		return M{"class": "setup-failed"}
 	}
+	// Parser.ParseDID is an entry point of its own: the handler looks at the namespace first, a resolver
+	// that calls the parser directly does not
+	pd := parseDIDClass(c.Str("ns"), c.Str("did"))
 	res, err := dh.ResolveDocument(c.Str("did"))
 	if err != nil {
-		return M{"class": "err"}
+		return M{"class": "err", "parse_did": pd}
 	}
-	return M{"class": "ok", "result": resultJSON(res)}
+	return M{"class": "ok", "result": resultJSON(res), "parse_did": pd}
+}
+
+var bareParser = operationparser.New(protocol.Protocol{})
+
+func parseDIDClass(ns, did string) (class string) {
+	defer func() {
+		if r := recover(); r != nil {
+			class = "panic"
+		}
+	}()
+	_, initial, err := bareParser.ParseDID(ns, did)
+	switch {
+	case err != nil:
+		return "err"
+	case initial == nil:
+		return "short"
+	default:
+		return "long"
+	}
 }
 
 // processKind: C17 — ProcessOperation, then resolve the DID it returned.
